@@ -1,4 +1,5 @@
 import NunavutVerif.Model.PyObj
+import NunavutVerif.Model.PyReflect
 import NunavutVerif.Proto
 /-!
 Driver for the C18 correspondence.  Everything is a stream of space-separated tokens in prefix form.
@@ -21,9 +22,17 @@ Requests
   `default <Ty>`                        `C()` / field default                    → `<Py>`
   `aliases <n> (<name> <major> <minor> <deprecated 0/1>)*n`  package aliases `Name_M`              → `(<name> <major> <newest minor>)*` | `-`
   `import <k> <dotted module path>*k <dotted namespace>`  `do_import` of get_class over that package tree → path | `none`
+  `tbtop <service 0/1> <Ty> <Py>` / `ufbtop <service 0/1> <Ty> <dest Py | D> <src Py>`  to_builtin / update_from_builtin
+                                        at the top level (service classes: `err type`)
+  `aliasset <n> (<dotted ns> <name> <major> <minor>)*n <index of the declared class> <dotted package> <name> <major>`
+                                        `obj.field = pkg.Name_M()` for a field declared as class #index → `ok` | `err <kind>`
+  `regen <r> (<n> (<dotted ns> <name> <major> <minor> <model> <request|-> <response|->)*n)*r <q> <query>*q`
+                                        r generation runs into one (initially empty) directory, models are opaque words;
+                                        query = `cls <dotted module> <dotted class path>` | `via <dotted package> <attr>`
+                                        → per query the model word or `none`
 Errors: `value` `type` `overflow` `other`; outside the modelled domain the answer is `unmodelled`.
 -/
-open NunavutVerif NunavutVerif.PyObj NunavutVerif.Proto
+open NunavutVerif NunavutVerif.PyObj NunavutVerif.PyReflect NunavutVerif.Proto
 
 abbrev Toks := List String
 
@@ -178,6 +187,43 @@ def runTrace (t : Ty) : Py → List (Nat × Py) → List String
     | .ok o' => ("ok " ++ showPy o') :: runTrace t o' ops
     | .error e => (showExc e ++ " " ++ showPy o) :: runTrace t o ops
 
+def dotted (s : String) : List String := if s = "-" then [] else s.splitOn "."
+
+def parseKeys : Nat → Toks → Option (List ClsKey × Toks)
+  | 0, r => some ([], r)
+  | n + 1, ns :: nm :: ma :: mi :: r => do
+    let ma ← ma.toNat?; let mi ← mi.toNat?
+    let (ks, r) ← parseKeys n r
+    pure (⟨dotted ns, nm, ma, mi⟩ :: ks, r)
+  | _, _ => none
+
+def parseDefs : Nat → Toks → Option (List (Def String) × Toks)
+  | 0, r => some ([], r)
+  | n + 1, ns :: nm :: ma :: mi :: m :: rq :: rs :: r => do
+    let ma ← ma.toNat?; let mi ← mi.toNat?
+    let (ds, r) ← parseDefs n r
+    pure (⟨dotted ns, nm, ma, mi, m, if rq = "-" then none else some (rq, rs)⟩ :: ds, r)
+  | _, _ => none
+
+def parseRuns : Nat → Toks → Option (List (List (Def String)) × Toks)
+  | 0, r => some ([], r)
+  | k + 1, n :: r => do
+    let n ← n.toNat?
+    let (ds, r) ← parseDefs n r
+    let (runs, r) ← parseRuns k r
+    pure (ds :: runs, r)
+  | _, _ => none
+
+def answerQueries (fs : FS String) : Nat → Toks → Option (List String)
+  | 0, [] => some []
+  | q + 1, "cls" :: m :: c :: r => do
+    let rest ← answerQueries fs q r
+    pure (((classModel idCodec fs (dotted m) (dotted c)).getD "none") :: rest)
+  | q + 1, "via" :: p :: a :: r => do
+    let rest ← answerQueries fs q r
+    pure (((getModelVia idCodec fs (dotted p) a).getD "none") :: rest)
+  | _, _ => none
+
 def answer (line : String) : String :=
   let toks := (line.splitOn " ").filter (· ≠ "")
   let fuel := toks.length + 1
@@ -230,6 +276,44 @@ def answer (line : String) : String :=
         | _ => "bad-op"
       | none => "bad-op"
     | none => "bad-op"
+  | "tbtop" :: svc :: r =>
+    match parseBool svc, parseTy fuel r with
+    | some svc, some (t, r) =>
+      match parsePy fuel r with
+      | some (x, []) => showRes (toBuiltinTop svc t x)
+      | _ => "bad-op"
+    | _, _ => "bad-op"
+  | "ufbtop" :: svc :: r =>
+    match parseBool svc, parseTy fuel r with
+    | some svc, some (t, "D" :: r) =>
+      match parsePy fuel r with
+      | some (v, []) => showRes (updateTop npArray svc t (defaultVal t) v)
+      | _ => "bad-op"
+    | some svc, some (t, r) =>
+      match parsePy fuel r with
+      | some (d, r) =>
+        match parsePy fuel r with
+        | some (v, []) => showRes (updateTop npArray svc t d v)
+        | _ => "bad-op"
+      | none => "bad-op"
+    | _, _ => "bad-op"
+  | "aliasset" :: n :: r =>
+    match n.toNat?.bind (fun n => parseKeys n r) with
+    | some (tbl, [idx, pkg, nm, ma]) =>
+      match idx.toNat?.bind (fun i => tbl[i]?), ma.toNat? with
+      | some decl, some ma =>
+        match setViaAlias npArray tbl decl false [] (dotted pkg) nm ma [] with
+        | .ok _ => "ok"
+        | .error e => showExc e
+      | _, _ => "bad-op"
+    | _ => "bad-op"
+  | "regen" :: k :: r =>
+    match k.toNat?.bind (fun k => parseRuns k r) with
+    | some (runs, q :: r) =>
+      match q.toNat?.bind (fun q => answerQueries (regenerate idCodec emptyFS runs) q r) with
+      | some out => if out.isEmpty then "-" else " ".intercalate out
+      | none => "bad-op"
+    | _ => "bad-op"
   | "hasty" :: s :: r =>
     match parseBool s, parseTy fuel r with
     | some s, some (t, r) =>
